@@ -23,7 +23,7 @@ from xdsl.analysis.dead_code_analysis import DeadCodeAnalysis, Executable
 from xdsl.analysis.liveness_analysis import Liveness, LivenessAnalysis
 from xdsl.context import Context
 from xdsl.dialects import func
-from xdsl.dialects.builtin import ModuleOp, UnregisteredOp, i32
+from xdsl.dialects.builtin import ModuleOp, UnitAttr, UnregisteredOp, i32
 from xdsl.dialects.test import (
     TestAllocatableOp,
     TestOp,
@@ -38,7 +38,19 @@ from xdsl.ir import Block, Operation, Region, SSAValue
 from simverif.kernel import Chooser, Engine, HarnessError, RunResult, Stream, Violation, register
 
 from xdsl.irdl import IRDLOperation, irdl_op_definition, traits_def, var_operand_def, var_result_def  # noqa: E402
-from xdsl.traits import IsTerminator, MemoryAllocEffect, MemoryFreeEffect, Pure, SymbolOpInterface  # noqa: E402
+from xdsl.traits import (  # noqa: E402
+    EffectInstance,
+    IsTerminator,
+    MemoryAllocEffect,
+    MemoryEffect,
+    MemoryEffectKind,
+    MemoryFreeEffect,
+    MemoryReadEffect,
+    MemoryWriteEffect,
+    NoMemoryEffect,
+    Pure,
+    SymbolOpInterface,
+)
 
 
 @irdl_op_definition
@@ -81,6 +93,61 @@ class SimFreeOp(IRDLOperation):
     traits = traits_def(MemoryFreeEffect())
 
 
+class SimMaybeOpaqueEffect(MemoryEffect):
+    """Cannot conclude (None) for instances marked `opaque`, no effect otherwise."""
+
+    @classmethod
+    def get_effects(cls, op: Operation):
+        return None if "opaque" in op.attributes else frozenset()
+
+
+@irdl_op_definition
+class SimTwoEffectOp(IRDLOperation):
+    """Harness op with two effect interfaces: a read, and one that may be inconclusive
+    (then the op has unknown effects and must not count as removable)."""
+
+    name = "simverif.two_effects"
+    res = var_result_def()
+    ops = var_operand_def()
+    traits = traits_def(MemoryReadEffect(), SimMaybeOpaqueEffect())
+
+
+class SimAllocOnValueEffect(MemoryEffect):
+    """An allocation *on a value*: the first operand for instances marked `on_operand`
+    (observable: the value lives outside the op), else the op's own first result (harmless)."""
+
+    @classmethod
+    def get_effects(cls, op: Operation):
+        if "on_operand" in op.attributes and op.operands:
+            return {EffectInstance(MemoryEffectKind.ALLOC, value=op.operands[0])}
+        if op.results:
+            return {EffectInstance(MemoryEffectKind.ALLOC, value=op.results[0])}
+        return {EffectInstance(MemoryEffectKind.ALLOC)}
+
+
+@irdl_op_definition
+class SimAllocOnValueOp(IRDLOperation):
+    name = "simverif.alloc_on_value"
+    res = var_result_def()
+    ops = var_operand_def()
+    traits = traits_def(SimAllocOnValueEffect())
+
+
+def _mk_dyn_op() -> type[IRDLOperation]:
+    """A fresh op class (per run) without effects; the run may later *add* a write effect
+    to the class with the public ``OpTraits.add_trait`` - ops of the class analysed after
+    that are not removable any more."""
+
+    @irdl_op_definition
+    class SimDynOp(IRDLOperation):
+        name = "simverif.dyn"
+        res = var_result_def()
+        ops = var_operand_def()
+        traits = traits_def(NoMemoryEffect())
+
+    return SimDynOp
+
+
 _UNREG = UnregisteredOp.with_name("simverif_unregistered.op")
 _REG_FREE = TestRegisterType.unallocated()
 _REG_A0 = TestRegisterType.from_name("a0")
@@ -101,8 +168,11 @@ OPS = (
     (_UNREG, False, "unregistered"),
     # effects decided per *instance*: writes a register iff a result register is allocated
     (TestAllocatableOp, None, "register-allocatable"),
+    (SimTwoEffectOp, None, "two-effect-interfaces"),
+    (SimAllocOnValueOp, None, "alloc-on-value"),
+    (None, None, "dynamic-traits"),
 )
-OP_WEIGHTS = (12, 4, 4, 4, 2, 1, 1, 1, 1, 1, 5)
+OP_WEIGHTS = (12, 4, 4, 4, 2, 1, 1, 1, 1, 1, 5, 2, 2, 2)
 POLICIES = ("fifo", "lifo", "random", "starve", "newest-of-oldest")
 LOADS = ("liveness+hand-marked", "deadcode,liveness", "liveness,deadcode", "liveness,liveness+hand-marked")
 
@@ -227,6 +297,9 @@ class SolverEngine(Engine):
         # one solver analyses 1 root (usual) or 2-3 roots one after the other (solver reuse)
         n_roots = 1 + ((1 + cfg.choice(2)) if cfg.flag(1, 6) else 0)
 
+        dyn_cls = _mk_dyn_op()
+        # solver reuse only: the write effect is added to the dynamic class before this root is analysed
+        dyn_change_before = (1 + cfg.choice(n_roots - 1)) if n_roots > 1 and cfg.flag(1, 2) else None
         values: list[SSAValue] = []
         vname: dict[int, str] = {}
         ops: list[Operation] = []
@@ -275,6 +348,23 @@ class SolverEngine(Engine):
                     rem = not any(t.is_allocated for t in rtypes)
                     kind = f"register-allocatable[{','.join('alloc' if t.is_allocated else 'free' for t in rtypes)}]"
                     st["reach.allocatable_removable" if rem else "reach.allocatable_with_allocated_result"] += 1
+                elif kind == "two-effect-interfaces":
+                    opaque = cfg.flag(1, 2)
+                    op = SimTwoEffectOp.create(operands=operands, result_types=[i32] * nres, attributes={"opaque": UnitAttr()} if opaque else {})
+                    rem = not opaque
+                    kind = "two-effect-interfaces[" + ("read+inconclusive" if opaque else "read+none") + "]"
+                    st["reach.two_effects_inconclusive" if opaque else "reach.two_effects_conclusive"] += 1
+                elif kind == "alloc-on-value":
+                    on_operand = cfg.flag(1, 2)
+                    op = SimAllocOnValueOp.create(operands=operands, result_types=[i32] * nres, attributes={"on_operand": UnitAttr()} if on_operand else {})
+                    # harmless only when the allocated value is the op's own result
+                    rem = bool(nres) and not (on_operand and operands)
+                    kind = "alloc-on-value[" + ("operand" if on_operand and operands else "own-result" if nres else "no-value") + "]"
+                    st["reach.alloc_on_outside_value" if not rem else "reach.alloc_on_own_result"] += 1
+                elif kind == "dynamic-traits":
+                    op = dyn_cls.create(operands=operands, result_types=[i32] * nres)
+                    rem = not (dyn_change_before is not None and ri >= dyn_change_before)
+                    kind = "dynamic-traits[" + ("pure" if rem else "write effect added to the class before this root") + "]"
                 else:
                     op = cls.create(operands=operands, result_types=[i32] * nres)
                 b = blocks[cfg.choice(len(blocks))]
@@ -326,22 +416,33 @@ class SolverEngine(Engine):
             roots.append({"root": root, "blocks": blocks, "seeds": seeds, "late": late})
 
         # ---- reference: least fixpoint over the ops of executable blocks ------
-        live: set[int] = set()
-        for r in roots:
-            live |= {id(v) for v in r["seeds"]} | {id(v) for v in r["late"]}
-        changed = True
-        rounds = 0
-        while changed:
-            changed = False
-            rounds += 1
-            for op in ops:
-                if not op._operands or op.parent is None or not exec_status[id(op.parent)]:
-                    continue
-                if not removable[id(op)] or any(id(r) in live for r in op.results):
-                    for v in op._operands:
-                        if id(v) not in live:
-                            live.add(id(v))
-                            changed = True
+        # (two bounds: an op of the dynamic class that was analysed *before* its class
+        # gained the write effect may legitimately be visited again afterwards - a duplicate
+        # delivery - and then counts as effectful; `live` is the lower bound, `live_hi` the
+        # upper bound; they coincide unless the run adds the trait between two analyses)
+        early_dyn = {id(o) for o in ops if dyn_change_before is not None and isinstance(o, dyn_cls) and removable[id(o)]}
+
+        def fixpoint(extra_effectful: set[int]) -> tuple[set[int], int]:
+            lv: set[int] = set()
+            for r in roots:
+                lv |= {id(v) for v in r["seeds"]} | {id(v) for v in r["late"]}
+            changed = True
+            n_rounds = 0
+            while changed:
+                changed = False
+                n_rounds += 1
+                for op in ops:
+                    if not op._operands or op.parent is None or not exec_status[id(op.parent)]:
+                        continue
+                    if not removable[id(op)] or id(op) in extra_effectful or any(id(r) in lv for r in op.results):
+                        for v in op._operands:
+                            if id(v) not in lv:
+                                lv.add(id(v))
+                                changed = True
+            return lv, n_rounds
+
+        live, rounds = fixpoint(set())
+        live_hi = fixpoint(early_dyn)[0] if early_dyn else live
 
         # ---- the real solver under the seeded scheduler ---------------------
         policy = POLICIES[cfg.choice(len(POLICIES))]
@@ -418,6 +519,12 @@ class SolverEngine(Engine):
             tr.append(f"load={LOADS[load]} policy={policy} dup_rate=1/{dup_rate} roots={n_roots}")
         for ri, r in enumerate(roots):
             root = r["root"]
+            if dyn_change_before is not None and ri == dyn_change_before:
+                # history: the class gains a write effect between two analyses
+                dyn_cls.traits.add_trait(MemoryWriteEffect())
+                st["fault.trait_added_between_analyses"] += 1
+                if tr is not None:
+                    tr.append("  simverif.dyn: add_trait(MemoryWriteEffect())")
             for bi, b in enumerate(r["blocks"]):
                 stt = exec_status[id(b)]
                 if (bi == 0 and hand_mark) or (bi > 0 and stt == 1):
@@ -453,7 +560,7 @@ class SolverEngine(Engine):
                 s = solver.lookup_state(v, Liveness)
                 got = s is not None and s.is_live
                 exp = id(v) in live
-                if got != exp:
+                if got != exp and not (got and id(v) in live_hi):
                     viol = Violation(
                         "liveness-vs-reference",
                         "LivenessAnalysis",
@@ -520,6 +627,7 @@ class SolverEngine(Engine):
             "faults_injected": {
                 "late_boundary_event": stats.get("fault.late_boundary_event", 0),
                 "late_block_executable_event": stats.get("fault.late_block_executable_event", 0),
+                "trait_added_to_an_op_class_between_two_analyses": stats.get("fault.trait_added_between_analyses", 0),
                 "duplicate_delivery": stats.get("fault.duplicate_delivery", 0),
                 "pop_order_perturbation_runs": sum(v for k, v in stats.items() if k.startswith("policy.") and k != "policy.fifo"),
             },
